@@ -25,6 +25,11 @@ def gen(rng, tier):
     for k in range(n_cases):
         if k % 10 == 9:
             yield FU.gen_raising_seq_case(rng)      # the heuristic raises after it has changed the object (queries issued before)
+        elif k % 10 == 4:
+            # dummy arcs / vehicles of INFINITE cost (a natural "never use this" value): costs play no part in feasibility mode
+            case = FU.gen_form_case(rng, tier, heur_p=0.0, nmax=3)
+            case["inf_high_cost"] = True
+            yield case
         else:
             yield FU.gen_form_case(rng, tier, heur_p=0.45)
 
@@ -33,9 +38,55 @@ def shrink(case):
     yield from FU.shrink_form_case(case)
 
 
+def inf_cost_case(case, res):
+    """the feasibility QUBO after make_feasible(inf): finite, >= 0, zero exactly on the vectors that satisfy the reported constraints
+    (the exact-rational model cannot hold inf; this is an oracle on the real code only)"""
+    import itertools
+    form = case["form"]
+    o, _ = FU.build_form(case, with_heur=False)
+    res.features += [f"form:{form}", "high-cost:inf"]
+    try:
+        o.make_feasible(np.inf)
+    except Exception:  # noqa
+        res.features.append("heur:raised")
+        res.nontrivial = False
+        return res
+    try:
+        n = int(o.get_num_variables())
+        A, b, R, r_ = o.get_constraint_data()
+        Q, k = o.get_qubo(feasibility=True)
+    except Exception as e:  # noqa
+        res.fail(f"{form}:raises", f"feasibility QUBO construction raised {e!r} after make_feasible(inf)")
+        return res
+    Qd = Q.toarray() if hasattr(Q, "toarray") else np.asarray(Q)
+    if not (np.all(np.isfinite(Qd)) and np.isfinite(k)):
+        res.fail(f"{form}:feas-qubo-not-finite", "the feasibility QUBO after make_feasible(inf) has non-finite entries (costs must play no part in feasibility mode)")
+        return res
+    if n == 0 or n > 12:
+        res.nontrivial = False
+        return res
+    Ad = A.toarray() if hasattr(A, "toarray") else np.asarray(A, dtype=float).reshape(len(b), -1)
+    Rd = R.toarray() if hasattr(R, "toarray") else np.asarray(R)
+    nz = nf = 0
+    for bits in itertools.product((0, 1), repeat=n):
+        x = np.array(bits, dtype=float)
+        e = float(x @ Qd @ x + k)
+        d = Ad @ x - np.asarray(b, dtype=float) if len(b) else np.zeros(0)
+        viol = float(d @ d + x @ Rd @ x)
+        if e < 0 or (e == 0) != (viol == 0):
+            res.fail(f"{form}:zero-set", f"after make_feasible(inf): feasibility QUBO value {e} at x={list(bits)}, squared violation {viol}")
+            return res
+        nz += e == 0
+        nf += e != 0
+    res.nontrivial = nz >= 1 and nf >= 1
+    return res
+
+
 def run_case(case, drv):
     res = Result(key=core.case_key(case))
     form = case["form"]
+    if case.get("inf_high_cost"):
+        return inf_cost_case(case, res)
     o, outcome = FU.build_form(case)
     FU.check_fresh_twin(o, case["form"], res)
     FU.check_query_mutate_query(case, res)
